@@ -39,6 +39,7 @@ func (c *compiler) compile() (string, error) {
 	bb := &strings.Builder{}
 
 	for _, stmt := range c.program.Statements {
+		verifYield()
 		var res interface{}
 		var err error
 
@@ -994,6 +995,7 @@ func (c *compiler) evalForExpression(node *ast.ForExpression) (interface{}, erro
 func (c *compiler) evalBlockStatement(node *ast.BlockStatement) (interface{}, error) {
 	res := []interface{}{}
 	for _, s := range node.Statements {
+		verifYield()
 		i, err := c.evalStatement(s)
 		if err != nil {
 			return nil, err
